@@ -5,6 +5,7 @@ package main
 import (
 	"fmt"
 	"go/types"
+	"regexp"
 	"sort"
 	"strings"
 
@@ -251,7 +252,111 @@ func (ex *Exec) applyContract(st *State, fr *Frame, ct *Contract, fn *ssa.Functi
 			ex.store(st, fr, b.orig, ex.load(st, b.tmp), in)
 		}
 	}()
+	// Function literals handed to a parameter for which the callee has a funcspec ("implements <param> <spec>"):
+	// the literal must have a contract of its own saying "implements self <spec>" (its body is verified against the
+	// funcspec separately, assuming its `captured` facts); here those facts are proved for the current values of the
+	// captured variables, and the captured variables the literal assigns are unknown after the call.
+	var havocAfter []Val
+	var havocTypes []types.Type
+	for i, a := range args {
+		cl, ok := a.(*Closure)
+		if !ok {
+			continue
+		}
+		k := i
+		if sig.Recv() != nil {
+			k = i - 1
+		}
+		pname := ""
+		if k >= 0 && k < len(ct.ParamNames) {
+			pname = ct.ParamNames[k]
+		} else if k >= 0 && k < sig.Params().Len() {
+			pname = sig.Params().At(k).Name()
+		}
+		spec, has := ct.Implements[pname]
+		if !has {
+			ex.unsup("function literal passed to %s, whose contract has no funcspec for parameter %q", shortKey(c, ct.Key), pname)
+		}
+		cct := c.Specs.Contracts[funcKey(cl.Fn)]
+		if cct == nil || cct.Implements["self"] != spec {
+			ex.unsup("function literal %s passed to %s needs a contract with 'implements self %s'", shortKey(c, funcKey(cl.Fn)), shortKey(c, ct.Key), spec)
+		}
+		written := map[string]bool{}
+		for _, b := range cl.Fn.Blocks {
+			for _, ins := range b.Instrs {
+				if stI, ok := ins.(*ssa.Store); ok {
+					if fv, ok := stI.Addr.(*ssa.FreeVar); ok {
+						written[fv.Name()] = true
+					}
+				}
+			}
+		}
+		cev := &Eval{c: c, pkg: c.TPkgs[cct.PkgPath], vars: map[string]SV{}, view: st, bound: &ex.bound, ex: ex}
+		for bi, fv := range cl.Fn.FreeVars {
+			pt, ok := under(fv.Type()).(*types.Pointer)
+			if !ok || bi >= len(cl.Bindings) {
+				continue
+			}
+			if sv, ok := ex.capturedValue(st, cl.Bindings[bi], pt.Elem(), st); ok {
+				cev.vars[fv.Name()] = sv
+			}
+			if written[fv.Name()] {
+				havocAfter = append(havocAfter, cl.Bindings[bi])
+				havocTypes = append(havocTypes, pt.Elem())
+			}
+		}
+		for ci, cc := range cct.Captured {
+			for w := range written {
+				if regexp.MustCompile(`\b` + regexp.QuoteMeta(w) + `\b`).MatchString(cc.Src) {
+					ex.unsup("captured clause %q of %s mentions %s, which the literal assigns", cc.Label, shortKey(c, cct.Key), w)
+				}
+			}
+			ex.oblige(st, fnKey, fmt.Sprintf("closure(%s):%s", short0(site), labelOr(cc, ci)), clauseTags(cc, fr.contract), cev.Bool(cc.E), where, cc.Src)
+		}
+	}
+	var closurePre *Snapshot
+	defer func() {
+		for i, b := range havocAfter {
+			switch p := b.(type) {
+			case *Ptr:
+				ex.store(st, fr, p, ex.freshTyped(st, "captured", havocTypes[i]), nil)
+			case T:
+				ex.store(st, fr, &Ptr{Kind: PBox, Ref: p, Base: havocTypes[i]}, ex.freshTyped(st, "captured", havocTypes[i]), nil)
+			}
+		}
+		// what the literals guarantee about the captured variables they assign (transitive two-state facts,
+		// proved for one call of the literal; the callee may have called it any number of times)
+		for _, a := range args {
+			cl, ok := a.(*Closure)
+			if !ok || closurePre == nil {
+				continue
+			}
+			cct := c.Specs.Contracts[funcKey(cl.Fn)]
+			if cct == nil || len(cct.CapturedPost) == 0 {
+				continue
+			}
+			mk := func(view HeapView) *Eval {
+				e := &Eval{c: c, pkg: c.TPkgs[cct.PkgPath], vars: map[string]SV{}, view: view, bound: &ex.bound, ex: ex}
+				for bi, fv := range cl.Fn.FreeVars {
+					pt, ok := under(fv.Type()).(*types.Pointer)
+					if !ok || bi >= len(cl.Bindings) {
+						continue
+					}
+					if sv, ok := ex.capturedValue(st, cl.Bindings[bi], pt.Elem(), view); ok {
+						e.vars[fv.Name()] = sv
+					}
+				}
+				return e
+			}
+			post := mk(st)
+			post.old = mk(closurePre)
+			for _, cp := range cct.CapturedPost {
+				st.assume(post.Bool(cp.E))
+			}
+		}
+	}()
 	pre := st.snapshot()
+	closurePre = pre
 	ev := ex.sigEnv(st, ct, fn, sig, args, nil, pre, nil)
 	short := site
 	// implicit: receiver not nil
@@ -613,6 +718,13 @@ func (ex *Exec) checkWrite(st *State, fr *Frame, heap string, ref T, in ssa.Inst
 			return
 		}
 		goal = Or(goal, Eq(ref, *t.ref))
+	}
+	// a function literal may assign its own captured variables (they belong to the enclosing function, which
+	// forgets their values after handing the literal to a callee)
+	if strings.HasPrefix(heap, "B_") {
+		for _, fvr := range ex.freeRefs {
+			goal = Or(goal, Eq(ref, fvr))
+		}
 	}
 	if goal.S == "true" {
 		return
@@ -1116,3 +1228,5 @@ func (ex *Exec) promotedView(st *State, v T, pt types.Type, target types.Type) (
 	}
 	return ex.define(st, "promoted", cur), true
 }
+
+func short0(site string) string { return site }
